@@ -166,7 +166,65 @@ def replay_filter(arg):
     return n, mism
 
 
+_SMGR = {}
+
+
+def replay_sensing_uuids(arg):
+    """the uuid criterion of Filter.tla at the sensing manager: the frame configuration handed to add_frame_result decides which ground truths are
+    evaluated (the evaluation configuration's own list only when no frame configuration is given)"""
+    import shutil
+    import tempfile
+
+    import numpy as np
+
+    from perception_eval.config import SensingEvaluationConfig
+    from perception_eval.evaluation.sensing.sensing_frame_config import SensingFrameConfig
+    from perception_eval.manager import SensingEvaluationManager
+
+    from ..build import frame_gt, obj3d
+
+    objs, P = arg
+    mism = []
+    n = 0
+    ins = ["in%d" % (i + 1) for i in range(4)]
+    for cfg_list, frame_list in ((None, "P"), (["nobody"], "P"), ("P", None), ("P", "absent"), (["nobody"], "absent")):
+        n += 1
+        res = lambda v: (list(ins) if P["uuids"] else None) if v == "P" else v
+        key = json.dumps(res(cfg_list))
+        if key not in _SMGR:
+            tmp = tempfile.mkdtemp(prefix="verif_suuid_")
+            try:
+                ec = SensingEvaluationConfig([], "base_link", tmp, {"evaluation_task": "sensing", "target_uuids": res(cfg_list), "box_scale_0m": 1.0, "box_scale_100m": 1.0,
+                                                                    "min_points_threshold": 1})
+                _SMGR[key] = SensingEvaluationManager(evaluation_config=ec)
+            finally:
+                shutil.rmtree(tmp, ignore_errors=True)
+        mgr = _SMGR[key]
+        mgr.frame_results.clear()
+        real = [obj3d((float(o["x"]), float(o["y"]), 0.0), label=o["label"] if o["label"] != "false_positive" else "car", uuid=("in%d" if o["uuid"] else "out%d") % (i + 1), vid=i + 1)
+                for i, o in enumerate(objs)]
+        decisive = res(cfg_list) if frame_list == "absent" else res(frame_list)
+        want = sorted(r.uuid for r in real if decisive is None or r.uuid in decisive)
+        rep = {"objs": objs, "evaluation_config_target_uuids": res(cfg_list), "frame_config_target_uuids": "no frame configuration" if frame_list == "absent" else res(frame_list),
+               "spec_evaluated": want}
+        try:
+            cloud = np.array([[50.0, 50.0, 0.0, 1.0]])
+            if frame_list == "absent":
+                fr = mgr.add_frame_result(1000, frame_gt(real), cloud, [])
+            else:
+                fr = mgr.add_frame_result(1000, frame_gt(real), cloud, [], SensingFrameConfig(target_uuids=res(frame_list), box_scale_0m=1.0, box_scale_100m=1.0, min_points_threshold=1))
+            got = sorted(r.ground_truth_object.uuid for lst in (fr.detection_success_results, fr.detection_fail_results, fr.detection_warning_results) for r in lst)
+        except Exception as ex:
+            mism.append(("sensing-manager-uuids:raised", "raised %r" % (ex,), rep))
+            continue
+        if got != want:
+            mism.append(("sensing-manager-uuids", "sensing manager evaluated %s, specification %s" % (got, want), rep))
+    return n, mism
+
+
 def run(ctx: Ctx):
+    seen_s = set()
+    sens_items = []
     for name, consts in slices(ctx.tier).items():
         res = T.run_model("MC_Filter", "MCF_" + name, consts, invariants=INV, model_values=(),
                           tlc_kwargs=dict(dump=True, allow_violation=False, seed=ctx.seed, timeout=3000))
@@ -175,6 +233,11 @@ def run(ctx: Ctx):
         states, _ = load_dump(res.dump_path, must_contain='phase = "done"')
         os.remove(res.dump_path)
         items = [(plain(st["objs"]), st["isGT"], plain(st["P"]), plain(st["out"]), name == "boundary_exact") for st in states]
+        for it in items:
+            k_ = json.dumps([[(o["uuid"]) for o in it[0]], it[2]["uuids"]])
+            if it[1] and k_ not in seen_s and len(it[0]) > 0:
+                seen_s.add(k_)
+                sens_items.append((it[0], it[2]))
         outs = pmap(replay_filter, items)
         for (objs, is_gt, P, out, _x), (n, mism) in zip(items, outs):
             ctx.traces += n
@@ -187,6 +250,14 @@ def run(ctx: Ctx):
         if items:
             ctx.sample({"slice": name, "objs": items[len(items) // 3][0], "is_gt": items[len(items) // 3][1], "P": items[len(items) // 3][2],
                         "spec_out": items[len(items) // 3][3]}, limit=3)
+
+    # the uuid criterion where the sensing manager applies it (every distinct pattern of listed / unlisted ground truths seen above)
+    for it, (n_, mism) in zip(sens_items, pmap(replay_sensing_uuids, sens_items)):
+        ctx.traces += n_
+        ctx.evaluations += n_
+        for clause, msg, rep in mism:
+            ctx.violation("filter:" + clause, msg, rep)
+    ctx.extra["sensing_manager_uuid_patterns"] = len(sens_items)
 
     # the manager's own wiring of the filter (objects reaching / leaving matching)
     def want(rendering, kind, fields):
